@@ -107,6 +107,7 @@ def build(seed, for_feedforward=False):
     # representation of the tables (own stream, so that the schedules themselves stay as they were): label-addressed tables may come with
     # their columns in another order, unrelated extra columns and an unnamed time index
     table_forms = bool(frng.random() < 0.3)
+    rows_unsorted = False
     if table_forms:
         from rv.workloads import forms
         inc = forms.shuffle_table(inc, frng)
@@ -150,7 +151,13 @@ def build(seed, for_feedforward=False):
             data = sim.generate_body_velocity_measurements(ref, sd, mseed) if len(e) else pd.DataFrame(columns=['VX', 'VY', 'VZ'], index=pd.Index([], dtype=float), dtype=float)
             m = measurements.BodyVelocity(data, sd)
         if table_forms and len(e):
-            m = type(m)(forms.shuffle_table(data, frng, extra=bool(frng.integers(0, 2))), sd, *([lever] if cls != 'BodyVelocity' else []))
+            d2 = forms.shuffle_table(data, frng, extra=bool(frng.integers(0, 2)))
+            if frng.random() < 0.5 and len(d2) > 1:
+                # rows not in time order (two receiver logs appended later-file-first): a table indexed by time, not a sorted one
+                k_ = int(frng.integers(1, len(d2)))
+                d2 = pd.concat([d2.iloc[k_:], d2.iloc[:k_]])
+                rows_unsorted = True
+            m = type(m)(d2, sd, *([lever] if cls != 'BodyVelocity' else []))
         sensors.append(m)
         desc.append(dict(cls=cls, modes=modes, n=int(len(e)), lever=lever,
                          inside=int(((e >= start) & (e < end)).sum())))
@@ -198,9 +205,9 @@ def build(seed, for_feedforward=False):
     per_interval = np.bincount(np.searchsorted(t, inside, side='right'), minlength=len(t) + 1).max() if len(inside) else 0
     init_err = rng.standard_normal(9) * np.array([2, 2, 2, 0.2, 0.2, 0.2, 0.1, 0.1, 0.3])
     return dict(traj=traj, imu=imu, increments=inc, measurements=meas_arg, sensors=sensors, times=t, start=start, end=end,
-                with_altitude=with_altitude, time_step=time_step, gyro_model=gm, accel_model=am, model_kind=mk,
+                with_altitude=(np.bool_(with_altitude) if frng.random() < 0.4 else with_altitude), time_step=time_step, gyro_model=gm, accel_model=am, model_kind=mk,
                 describe=dict(imu=kind, step=step, n_inc=int(len(inc)), median_dt=h, max_gap=float(np.diff(t).max()),
-                              time_step=time_step, with_altitude=with_altitude, models=mk, sensors=desc, tables_permuted=table_forms, tiny_record=tiny, mixed_models=mixed_models,
+                              time_step=time_step, with_altitude=with_altitude, models=mk, sensors=desc, tables_permuted=table_forms, rows_unsorted=rows_unsorted, tiny_record=tiny, mixed_models=mixed_models,
                               measurements_arg='list' if sensors else ('None' if meas_arg is None else '[]'),
                               epochs_inside=int(len(inside)), max_epochs_in_one_interval=int(per_interval)),
                 init_err=init_err)
